@@ -426,6 +426,14 @@ fn c05_strict(rep: &mut Report, thorough: bool) {
             if st.custom_exts.iter().any(|c| c.critical) {
                 return out;
             }
+            // keyCertSign on a certificate that is not a CA is a non-conformant parameter set (RFC 5280 4.2.1.3)
+            if st.key_usages.contains(&5) {
+                return out;
+            }
+            // a CRL issuer (cRLSign) must have a non-empty subject (RFC 5280 4.1.2.6): also a parameter matter
+            if st.key_usages.contains(&6) && st.dn.entries().is_empty() {
+                return out;
+            }
             st.not_after = TimeSpec::ymd(2090, 1, 1);
             if st.not_before.unix > 1_700_000_000 {
                 st.not_before = TimeSpec::ymd(2001, 1, 1);
